@@ -40,6 +40,7 @@ class C15Gen:
         self.i = 0
         self.n = 0
         self.failed = []  # names that failed in a query and are not registered yet (look-ahead targets)
+        self.swept = False
         self.asked = []  # closed queries asked so far (re-asked later: the memoised / second answer)
 
     # ---------------------------------------------------------------- pickers
@@ -111,6 +112,32 @@ class C15Gen:
             elif self.cfg.get("peer_rate", 0) and r > 1 - self.cfg["peer_rate"] and self.cfg.get("has_callables"):
                 op["peer"] = rng.choice([1, 1, 2, 3])
                 op["f"] = "F2.peer_exception"
+        if (
+            op.get("reg")
+            and op["reg"]["kind"] in ("AddCategory", "AddUnit", "AddUnitBase")
+            and not self.swept
+            and self.n > 3
+            and rng.random() < self.cfg.get("sweep_rate", 0)
+        ):
+            # interrupt sweep: every line position of this registration is tried in a forked
+            # grandchild, followed by closed queries about the names it mentions; each answer is
+            # compared with a cold database that reports the same registry (with or without it)
+            self.swept = True
+            probes = []
+            for _ in range(4):
+                q = self.qop(self.probe_after_rejection(op["reg"], model))
+                if q["a"] not in [x["a"] for x in probes]:
+                    probes.append(q)
+            names = Q.names([op["reg"].get("category"), op["reg"].get("unit"), op["reg"].get("type")])
+            for e in reversed(self.asked[-20:]):
+                if len(probes) >= 6:
+                    break
+                if Q.names(e) & names and {"J": e} not in [x["a"][0] for x in probes]:
+                    probes.append(self.qop(e))
+            for q in probes:
+                q["c"] = "inspector"
+            op["sweep"] = True
+            op["probes"] = probes
         op["c"] = client
         op["i"] = self.i
         self.i += 1
@@ -512,6 +539,21 @@ class RegTrack(Mon.Monitor):
         sim.stats["probe:intern_entries"] = len(db.quantities_cache)
 
 
+def _struct(db):
+    """The registry's own tables, used ONLY to recognise a half-done (interrupted) mutator: a state
+    in which they differ from both the state before and the state after the completed call is one
+    about which nothing is demanded."""
+    return [
+        sorted((u, i.quantity_type, i.name) for u, i in db.unit_to_unit_info.items()),
+        sorted((t, [i.unit for i in infos]) for t, infos in db.quantity_types.items()),
+        sorted((c, F.fp(ci)) for c, ci in db.categories_to_quantity_types.items()),
+    ]
+
+
+def sweep_digest(track):
+    return digest([track.snap(), _struct(_db())])
+
+
 class OtherDbPure(Mon.Monitor):
     """Nothing done to / asked of the database under test changes what ANOTHER database instance
     reports (registrations included)."""
@@ -598,6 +640,7 @@ class C15:
         cfg["cold_checks"] = 12 if tier == "quick" else 10 ** 6
         cfg["repeat_rate"] = rng.choice([0.05, 0.15, 0.3])
         cfg["other_db_rate"] = rng.choice([0, 0.1, 0.1, 0.3])
+        cfg["sweep_rate"] = rng.choice([0, 0, 0, 0.1]) if tier == "quick" else rng.choice([0, 0.1, 0.3])
         return cfg
 
     def setup_world(self, cfg):
@@ -629,6 +672,7 @@ class C15:
         focus = None if small else (list(cfg["types"]), list(cfg["cats"]), units)
         pure = Mon.RSnap("C15.pure", applies=lambda op: not op.get("reg"), focus=focus, full_at_end=False, memo_rule=False)
         sim.monitors = [pure, OtherDbPure(), track]
+        sim.snap_fn = lambda: sweep_digest(track)
         sim.user["model"] = RegModel.from_db(_db()) if cfg["world"] != "W-SYN" else RegModel()
         return sim
 
@@ -669,8 +713,39 @@ class C15:
         rep = run_in_child(child_reg_cold, (self, full["cfg"], ops, set(), known, None), timeout=RUN_TIMEOUT * 3)
         # the parent of the cold children has executed the ACCEPTED registrations only: a rejected
         # registration is a failing operation, not part of what the fresh database is built from
-        repa = run_in_child(child_reg_cold, (self, full["cfg"], ops, set(cands), known, accepted), timeout=RUN_TIMEOUT * 3)
+        sweeps = full.get("sweeps") or {}
+        sweep_probes = {o["i"]: o.get("probes", []) for o in ops if o.get("sweep") and sweeps.get(o["i"])}
+        repa = run_in_child(child_reg_cold, (self, full["cfg"], ops, set(cands), known, accepted, sweep_probes), timeout=RUN_TIMEOUT * 4)
         rep["cold"] = repa["cold"]
+        # interrupt sweeps: each interrupted registration left the registry either as it was or as
+        # the completed call leaves it (anything else is a half-done mutator, about which nothing is
+        # demanded); the probe answers must be those of a cold database reporting the same thing
+        for i, rows in sorted(sweeps.items()):
+            ref = repa["sweep"].get(i)
+            if not ref:
+                continue
+            for k, where, dg, answers in rows:
+                if dg == ref["pre_digest"]:
+                    want, which = ref["pre"], "not_applied"
+                elif dg == ref["post_digest"]:
+                    want, which = ref["post"], "applied"
+                else:
+                    out["execs"]["SWEEP-half-state"] = out["execs"].get("SWEEP-half-state", 0) + 1
+                    continue
+                out["execs"]["SWEEP-point"] = out["execs"].get("SWEEP-point", 0) + 1
+                for n, (got, cold) in enumerate(zip(answers, want)):
+                    out["oracle_checks"] += 1
+                    if list(got) != list(cold):
+                        pk = sweep_probes[i][n]["k"]
+                        out["violations"].append(
+                            {
+                                "oracle": "C15.warm_cold",
+                                "sig": {"query": _qkind(pk), "after": "interrupted_registration:" + which},
+                                "step": i,
+                                "detail": "after KeyboardInterrupt at line event %s (%s) of the registration at step %s (registry reports it as %s): query %s answers %r, a cold database reporting the same registry answers %r" % (k, where, i, which, pk, got, cold),
+                            }
+                        )
+                        return out
         out["execs"]["REG"] = 1
         out["execs"]["REG-A"] = 1
         out["execs"]["COLD"] = len(rep["cold"])
@@ -757,7 +832,7 @@ def _event_index(ops, log):
     return prev
 
 
-def child_reg_cold(profile, cfg, ops, cold_indices, known, only=None):
+def child_reg_cold(profile, cfg, ops, cold_indices, known, only=None, sweep_probes=None):
     """REG: executes only the reg.* ops (accepted and rejected, in order; with `only`, just the ones
     whose step is listed = REG-A); forks a COLD grandchild at the position of each selected query,
     which evaluates that query alone and exits."""
@@ -766,12 +841,25 @@ def child_reg_cold(profile, cfg, ops, cold_indices, known, only=None):
     sim.oracles = PropFilter("C15")
     track = RegTrack(cfg)
     sim.user["model"] = RegModel()
-    out = {"reg": {}, "cold": {}}
+    out = {"reg": {}, "cold": {}, "sweep": {}}
+    sweep_probes = sweep_probes or {}
+
+    def cold_answers(probes):
+        return [run_in_child(_cold_one, (cfg, dict(p, i=900000 + n), known), timeout=RUN_TIMEOUT) for n, p in enumerate(probes)]
+
     for op in ops:
         if op.get("reg"):
+            op = {a: b for a, b in op.items() if a not in ("sweep", "probes", "intr")}
+            sw = sweep_probes.get(op["i"])
+            if sw is not None:
+                out["sweep"][op["i"]] = {"pre_digest": sweep_digest(track), "pre": cold_answers(sw)}
             if only is not None and op["i"] not in only:
+                if sw is not None:
+                    out["sweep"][op["i"]].update({"post_digest": out["sweep"][op["i"]]["pre_digest"], "post": out["sweep"][op["i"]]["pre"]})
                 continue
             res = sim.execute(op)
+            if sw is not None:
+                out["sweep"][op["i"]].update({"post_digest": sweep_digest(track), "post": cold_answers(sw)})
             e = sim.log[-1]
             out["reg"][op["i"]] = [e[3], e[4], digest(track.snap())]
         elif op["i"] in cold_indices:
